@@ -27,3 +27,32 @@ Theorem c02_no_panic : forall lid las ras b,
   wf_bytes b = true -> handle_open lid las ras b <> OPanic.
 Proof. exact handle_open_total. Qed.
 Print Assumptions c02_no_panic.
+
+(* FSM half: what the OpenSent state does with a received OPEN — accepted: OnOpenMessage
+   once with the sender's id and capabilities, KEEPALIVE, timers, OpenConfirm; refused: one
+   NOTIFICATION, close, no OnOpenMessage; the plugin's notification is sent verbatim; a
+   finished connection never becomes Established (PDone is absorbing) *)
+From Verif Require Import Conn ConnProofs.
+Theorem c02_fsm_open : forall cf pl h k o,
+  conn_step cf pl (mkC POpenSent h k) (IRd (RMsg (MOpen o))) =
+  match open_validate (cf_lid cf) (cf_las cf) (cf_ras cf) o with
+  | Some n => (mkC PDone h k, [AWrite (notif_encode n); ACloseConn; AStopHold; AReturn 1 (ENotifOut n)])
+  | None =>
+      match pl_on_open pl with
+      | Some n => (mkC PDone h k, [AOnOpen (o_id o) (get_capabilities o); AWrite (notif_encode n);
+                                   ACloseConn; AStopHold; AReturn 1 (ENotifOut n)])
+      | None =>
+          (mkC PWaitOC (negotiated cf o) k,
+           [AOnOpen (o_id o) (get_capabilities o); AWrite keepalive_encode]
+           ++ (if negotiated cf o =? 0 then [AStopHold]
+               else [AArmKA (negotiated cf o / 3); AArmHold (negotiated cf o)])
+           ++ [AReturn 5 ENone])
+      end
+  end.
+Proof. exact open_in_opensent. Qed.
+Print Assumptions c02_fsm_open.
+
+Theorem c02_finished_stays_finished : forall cf pl ins st,
+  c_phase st = PDone -> conn_run cf pl st ins = (st, []).
+Proof. exact done_absorbing. Qed.
+Print Assumptions c02_finished_stays_finished.
